@@ -55,6 +55,26 @@ structure Cfg where
   has : List Nat
   nodes : Hostlist
   version : Bytes
+  /-- `conf_aliases` in the order `list_find_first` walks it: alias name, and the hosts of `a->hl` in iteration order -/
+  aliases : List (Name × List Name) := []
+
+/-- `list_find_first(conf_aliases, _alias_match, host)`: the host list of the first alias called `n` -/
+def aliasOf (als : List (Name × List Name)) (n : Name) : Option (List Name) := (als.find? (·.1 == n)).map (·.2)
+
+/-- the `while ((host = hostlist_next(itr)))` loop of `conf_exp_aliases` on expanded name lists.  `hl` is the user's list,
+    `newhosts` the side list.  One unit of fuel is one run of the iterator from the start: the first host that is the name
+    of an alias is deleted from `hl` (`hostlist_delete_host`: its first occurrence), the alias's hosts are appended to
+    `newhosts` (`hostlist_push_list`), and the iterator is reset; a run that meets no alias name ends the loop, and
+    `newhosts` is appended to `hl`.  Every reset follows a deletion, so `hl.length` runs (+ the last one) suffice. -/
+def expAliasesF (als : List (Name × List Name)) : Nat → List Name → List Name → List Name
+  | 0, hl, newhosts => hl ++ newhosts
+  | fuel + 1, hl, newhosts =>
+    match hl.find? fun n => (aliasOf als n).isSome with
+    | none => hl ++ newhosts
+    | some host => expAliasesF als fuel (hl.erase host) (newhosts ++ (aliasOf als host).getD [])
+
+/-- `conf_exp_aliases` -/
+def expAliases (als : List (Name × List Name)) (names : List Name) : List Name := expAliasesF als names.length names []
 
 /-- one client as `client.c` keeps it -/
 structure Cli where
@@ -230,7 +250,8 @@ def handleWrite (w : W) (c : Cli) : W × Cli :=
   let cap := capOf w c.fd
   if cap < 0 then ({ w with sys := w.sys ++ [.write c.fd [] true false] }, { c with quit := true })
   else if c.blocking then
-    ({ w with sys := w.sys ++ [.write c.fd c.toBuf false (cap < c.toBuf.length)] }, { c with toBuf := [] })
+    -- the capacity is per pass: a blocking write uses it up like any other (a second `quit` line in one read flushes again)
+    (setCap { w with sys := w.sys ++ [.write c.fd c.toBuf false (cap < c.toBuf.length)] } c.fd (if cap < c.toBuf.length then 0 else cap - c.toBuf.length), { c with toBuf := [] })
   else if cap == 0 then
     ({ w with sys := w.sys ++ [.write c.fd [] false false] }, { c with quit := true })
   else
@@ -371,7 +392,7 @@ def parseLine (w : W) (c : Cli) (line : Bytes) : W × Cli :=
       | .fatal => ({ w with exited := true }, c)
       | .err => fin c (codeLine 205 ++ crlf)
       | .ok hl =>
-        let names := expand hl
+        let names := expAliases w.cfg.aliases (expand hl)      -- `conf_exp_aliases(hl)`
         let badNames := names.filter fun n => (find w.cfg.nodes n).isNone
         if !badNames.isEmpty then
           fin c (bstr "209 No such nodes: " ++ ofChars (rangedString (badNames.foldl pushHost [])) ++ crlf)
